@@ -13,11 +13,15 @@ LEVEL_TEXT = ("Proof: Coq theorems for all glyph sets and non-singular transform
               "set before and after each real filter (Decompose, DecomposeTransformed, Flatten, Transformations; include subsets; "
               "both UFO libraries) and the Coq flatten model against FlattenComponentsFilter. Anchor propagation is checked on the "
               "implementation against an independent statement (position = component transform of the base's anchor, no override, "
-              "idempotent) -- observed, not modelled.")
+              "idempotent) -- observed, not modelled. The matrix TransformationsFilter builds from its options is modelled step by "
+              "step (Geometry/TransformMatrix.v) and proved equal, for all option values, to the closed form 'slant about the origin "
+              "height, then scale about it, then offset' (C15_requested_matrix_closed_form / _on_a_point); the check's requested "
+              "matrix is compared with that model exactly and with the filter's own matrix (exactly; within 1e-9 with slant), and "
+              "the whole-set theorem transform_render covers every matrix.")
 LEVEL_NOTE = ("Trusted: Coq kernel; hand model of the fontTools pens (correspondence-tested); exact rationals for dyadic inputs; "
-              "TransformationsFilter is exercised with power-of-two scales and integer offsets (slant needs tan(), outside the exact "
-              "domain); whole-filter theorems for flatten/transformations are not proved, only their algebraic cores -- the "
-              "render-preservation statement is evaluated per case in Coq.")
+              "TransformationsFilter is exercised with power-of-two scales and integer offsets inside Coq; slanted cases (tan() is "
+              "irrational, the filter's float arithmetic is not exact) are judged against the same statement outside Coq with a "
+              "1e-6 tolerance; the render-preservation statement is evaluated per case in Coq.")
 TECHNIQUE = "Coq proofs of the decomposition/flatten/compensation algebra + Coq-evaluated render-preservation on real filter runs"
 IMPORTS = "From U2F Require Import Base.Prelude Geometry.Model Geometry.Cff Geometry.Filters."
 RULE = ("random component DAGs with anchors (depth <= 4, shared bases, all matrix classes) x filter in {DecomposeComponents, "
@@ -54,6 +58,7 @@ def explore(ctx):
 
     rng = ctx.subrng("filters")
     pres, flat, trans = ([], []), ([], []), ([], [])
+    matcases, matmeta = [], []
     for i in range(ctx.budget(90, 700)):
         desc = gen_component_font(rng, anchors=True, max_depth=4)
         names = [g["name"] for g in desc["glyphs"]]
@@ -98,6 +103,14 @@ def explore(ctx):
                 m = (fx, Fr(0), fx * t, fy, Fr(opts["OffsetX"]) - fx * t * h, Fr(opts["OffsetY"]) + h - fy * h)
                 case["matrix"] = jsonable(m)
                 case["filter_matrix"] = jsonable(tuple(Fr(v) for v in f.context.matrix))
+                # the check's requested matrix is the Gallina build_matrix (the filter's steps in the filter's order, proved
+                # equal to the closed form); the filter's own float matrix must agree with it (exactly without slant)
+                matcases.append(G.tup(geom.g_q(Fr(opts["OffsetX"])), geom.g_q(Fr(opts["OffsetY"])), geom.g_q(fx), geom.g_q(fy),
+                                      geom.g_q(t), geom.g_q(h), geom.g_affine(m)))
+                matmeta.append(dict(case))
+                fm = tuple(Fr(v) for v in f.context.matrix)
+                if any(abs(a - b) > (Fr(1, 10 ** 9) if angle else 0) for a, b in zip(fm, m)):
+                    ctx.spec_failure(case, "the filter's matrix %r is not the requested one %r" % ([float(v) for v in fm], [float(v) for v in m]))
             else:
                 modified = PropagateAnchorsFilter(**kw)(font, gset)
         except Exception as e:
@@ -153,6 +166,12 @@ def explore(ctx):
             trans[1].append(case)
         else:
             check_propagate(ctx, case, before, after, font, kw, lib, desc)
+    mv = ctx.coq_eval("From Coq Require Import QArith Qcanon.\nFrom U2F Require Import Base.Prelude Geometry.Model Geometry.TransformMatrix.",
+                      "fun c : (Qc * Qc * Qc * Qc * Qc * Qc * affine) => let '(ox, oy, fx, fy, t, h, m) := c in "
+                      "if affine_eqb (build_matrix ox oy fx fy t h) m then 3 else 2", matcases, chunk=100, tag="Matrix")
+    for v, case in zip(mv, matmeta):
+        if v is not None and v != 3:
+            ctx.corr_mismatch(case, "the check's requested matrix differs from the Gallina build_matrix (TransformationsFilter.set_context, step by step)")
     for (cases, meta), fn, tag, msg in (
             (pres, FN_PRES, "Pres", "resolved outlines changed by the decomposing filter (Coq render_preserved false)"),
             (flat, FN_FLAT, "Flat", "flattening changed the resolved outlines or left nesting deeper than one level"),
